@@ -449,6 +449,11 @@ func runChild(ti int, tr mbt.Trace, key string, rep *mbt.Report) {
 	json.NewEncoder(f).Encode(tr)
 	f.Close()
 	cmd := exec.Command(os.Args[0], "child", f.Name())
+	// the child's scratch directories live (and die, even if the child is killed by the runtime) under one directory
+	if cdir, derr := ioutil.TempDir("", "peerinput-child-"); derr == nil {
+		defer os.RemoveAll(cdir)
+		cmd.Env = append(os.Environ(), "TMPDIR="+cdir)
+	}
 	var stderr strings.Builder
 	cmd.Stderr = &stderr
 	out, err := cmd.Output()
